@@ -103,3 +103,43 @@ def pull_rebase_drops_local_commit_that_upstream_has():
         kinds.append("C13/lost@hooks-pull-dup")
     kinds += [k for k in out["hooks"] if not k.startswith("C13/lost")]
     return kinds, [out]
+
+
+def _run_rebase_abort(mode, how="abort"):
+    class S(Script, Hist):
+        pass
+    s = S("d86" + mode, files=2)
+    s.w.destroy()
+    from ..world import World
+    from .. import notes as N
+    s.w = World(name="wd86", mode=mode)
+    s.nr = N.NotesReader(s.w)
+    try:
+        f0 = [s.line("human") for _ in range(4)]
+        s.human_write("f.txt", f0); s.commit_all("init")
+        s.g("checkout", "-q", "-b", "topic")
+        s.human_write("f.txt", f0[:1] + [s.line("human")] + f0[2:]); s.commit_all("topic changes line 2")
+        s.g("checkout", "-q", "main")
+        s.human_write("f.txt", f0[:1] + [s.line("human")] + f0[2:]); s.commit_all("main changes line 2 too")
+        s.g("checkout", "-q", "topic")
+        s.g("rebase", "main")                      # stops on the conflict
+        s.g("rebase", "--abort")
+        s.ai_write("S1", "g.txt", [s.line("S1"), s.line("S1")])
+        s.commit_all("agent's file, committed after the aborted rebase")
+        s.check_notes("w")
+        s.check_blame_tip("w", rule="C13")
+        return s.kinds()
+    finally:
+        s.destroy()
+
+
+def commit_after_aborted_rebase_in_hooks_mode():
+    """D86: `git rebase main` stops on a conflict, `git rebase --abort`; an agent writes g.txt; commit => with the wrapper the note lists
+    g.txt 1-2, with git-ai installed as repository hooks the commit gets no note at all and the lines are a person's (pre-rebase masks
+    the managed pre-commit / post-commit / reference-transaction hooks; `rebase --abort` fires neither post-rewrite nor post-checkout, so
+    they stay masked until some later checkout or rewrite)."""
+    kw, dw = _run_rebase_abort("wrapper")
+    kh, dh = _run_rebase_abort("hooks")
+    if kw:
+        return ["wrapper-mode:" + k for k in kw], dw
+    return kh, dh
